@@ -1762,13 +1762,9 @@ class Parallel(Logger):
             raise
         finally:
             # Store the unconsumed tasks and terminate the workers if necessary
-            with self._lock:
-                # A completion callback may be registering a new batch right
-                # now: it does so under the lock, either before the lines
-                # below or, seeing that the call is over, not at all.
-                _remaining_outputs = [] if self._exception else self._jobs
-                self._jobs = collections.deque()
-                self._jobs_set = set()
+            _remaining_outputs = [] if self._exception else self._jobs
+            self._jobs = collections.deque()
+            self._jobs_set = set()
             if not detach_generator_exit:
                 self._running = False
                 self._terminate_and_reset()
@@ -1986,6 +1982,11 @@ class Parallel(Logger):
             # compare this id with theirs under the lock: it has to change
             # before the tracking state below is reset for the new call.
             self._call_id = uuid4().hex
+            # A completion callback of the previous call may have registered
+            # a batch (under the lock) while that call was being wound up:
+            # it must not be returned by this call.
+            self._jobs = collections.deque()
+            self._jobs_set = set()
 
         # Counter to keep track of the task dispatched and completed.
         self.n_dispatched_batches = 0
